@@ -1,5 +1,9 @@
 #ifdef CANARY
 #define CANARY_POINT() __CPROVER_assert(0, "canary: end of harness reachable")
+/* an additional vacuity guard inside the harness entry function: the driver requires EVERY canary of the entry function to be refuted,
+   i.e. the guarded path must be reachable on the current tree (otherwise the group is undecided, never "held") */
+#define CANARY_AT(what) __CPROVER_assert(0, "canary: reachable: " what)
 #else
 #define CANARY_POINT()
+#define CANARY_AT(what)
 #endif
